@@ -422,6 +422,17 @@ def variants():
         Variant("c-shared-history-list", "bad", insert_after(sm, "StateManager.__init__", "self._results_dict = None", "self._history.update(dict.fromkeys(HISTORY_STATE_KEYS, []))"), ["C17.c"], quick=True),
         Variant("benign-rename-value", "benign", alpha_rename(sm, "StateManager.get_current", "value", "val"), quick=True),
         Variant("benign-np-copy", "benign", replace_expr(sm, "StateManager._ensure_copy", "value.copy()", "np.array(value)"), quick=True),
+        # what the copy helper may hand out: new arrays, never another name for the stored one
+        Variant("a-benign-ensure-copy-np-copy", "benign", replace_expr(sm, "StateManager._ensure_copy", "value.copy()", "np.copy(value)")),
+        Variant("a-benign-ensure-copy-np-array-copy-true", "benign", replace_expr(sm, "StateManager._ensure_copy", "value.copy()", "np.array(value, copy=True)")),
+        Variant("a-benign-ensure-copy-astype-default", "benign", replace_expr(sm, "StateManager._ensure_copy", "value.copy()", "value.astype(value.dtype)")),
+        Variant("a-ensure-copy-is-alias-np-asarray", "bad", replace_expr(sm, "StateManager._ensure_copy", "value.copy()", "np.asarray(value)"), ["C17.a", "C17.b", "C17.c"]),
+        Variant("a-ensure-copy-is-alias-np-array-copy-false", "bad", replace_expr(sm, "StateManager._ensure_copy", "value.copy()", "np.array(value, copy=False)"), ["C17.a", "C17.b", "C17.c"]),
+        Variant("a-ensure-copy-is-alias-view", "bad", replace_expr(sm, "StateManager._ensure_copy", "value.copy()", "value.view()"), ["C17.a", "C17.b", "C17.c"]),
+        Variant("a-ensure-copy-is-alias-ellipsis-slice", "bad", replace_expr(sm, "StateManager._ensure_copy", "value.copy()", "value[...]"), ["C17.a", "C17.b", "C17.c"]),
+        Variant("a-ensure-copy-is-alias-reshape-same", "bad", replace_expr(sm, "StateManager._ensure_copy", "value.copy()", "value.reshape(value.shape)"), ["C17.a", "C17.b", "C17.c"]),
+        Variant("a-ensure-copy-is-alias-astype-copy-false", "bad", replace_expr(sm, "StateManager._ensure_copy", "value.copy()", "value.astype(value.dtype, copy=False)"), ["C17.a", "C17.b", "C17.c"]),
+        Variant("a-ensure-copy-is-alias-ascontiguous", "bad", replace_expr(sm, "StateManager._ensure_copy", "value.copy()", "np.ascontiguousarray(value)"), ["C17.a", "C17.b", "C17.c"]),
         Variant("benign-hoist-hist", "benign", replace_stmt(sm, "StateManager.get_history", "return self._ensure_copy(self._history[key][index])", "batch = self._history[key][index]\nreturn self._ensure_copy(batch)")),
     ]
 
